@@ -29,6 +29,56 @@ def _map_calls(fn, cls, store, name):
             q.refers_to_member(c.obj, cls + '::' + store)]
 
 
+def nearest_rule(ctx, prog, cls, RID):
+    """find_nearest_highest_seqnum(requested, last) = smallest stored key in [requested, last] (inclusive), 0 if none. Two idioms are recognised:
+    (A) a for loop probing requested, requested+1, ... <= last with find(); (B) one lower_bound(requested) whose hit is accepted only if key <= last."""
+    fh = prog.fn1(cls + '::find_nearest_highest_seqnum')
+    ctx.saw(fh)
+    preq, plast = fh.param_ids[0], fh.param_ids[1]
+    loops = [n for n in fh.all_nodes() if n.k == 'ForStmt']
+    lbs = [c for c in fh.calls() if c.callee is not None and c.callee.get('n') == 'lower_bound' and c.args and q.refers_to_decl(c.args[0], preq)]
+    rets = [n for (v, kind, n) in fh.cfg.exits() if kind == 'return']
+    if len(loops) == 1 and not lbs:
+        okn = False
+        lp = loops[0]
+        init, cond, inc = lp.child('init'), lp.child('cond'), lp.child('inc')
+        if init is not None and init.k == 'DeclStmt' and cond is not None and inc is not None:
+            lv = init.r['decls'][0][0]
+            iv = fh.node(init.r['decls'][0][1])
+            c = cond.strip(casts=True)
+            i2 = inc.strip(casts=True)
+            okn = (q.refers_to_decl(iv, preq) and c.k == 'BinaryOperator' and c.op == '<=' and q.refers_to_decl(c.children[0], lv)
+                   and q.refers_to_decl(c.children[1], plast) and i2.k == 'UnaryOperator' and i2.op == '++' and q.refers_to_decl(i2.children[0], lv))
+            fnd = [x for x in lp.child('body').walk() if x.is_call and x.callee and x.callee.get('n') == 'find']
+            okn = okn and len(fnd) == 1 and q.refers_to_decl(fnd[0].args[0], lv)
+        ctx.check(okn, RID, cls + '::find_nearest_highest_seqnum#scan', fh.loc,
+                  'ascending scan from `requested` to `last` inclusive, probing each number')
+    elif lbs:
+        hits = [r for r in rets if any(x.k == 'MemberExpr' and x.decl.get('n') == 'first' for x in r.walk())]
+        ctx.need(hits, cls + '::find_nearest_highest_seqnum: no return of a found key')
+        why = None
+        for r in hits:
+            atoms = q.controlling_atoms(fh, r)
+            upper = None
+            for a, pol in atoms:
+                t = a.strip(casts=True)
+                if t.k == 'BinaryOperator' and t.op in ('<', '<=', '>', '>=') and any(q.refers_to_decl(x, plast) for x in t.walk() if x.k == 'DeclRefExpr'):
+                    left_last = any(q.refers_to_decl(x, plast) for x in t.children[0].walk() if x.k == 'DeclRefExpr')
+                    op = t.op if not left_last else {'<': '>', '>': '<', '<=': '>=', '>=': '<='}[t.op]     # as  key OP last
+                    if not pol:
+                        op = {'<': '>=', '>': '<=', '<=': '>', '>=': '<'}[op]
+                    upper = op
+            if upper is None:
+                why = 'the key found by lower_bound(requested) is returned without being compared with `last`: a stored number above the requested window is reported as being inside it'
+            elif upper != '<=':
+                why = 'the key found by lower_bound(requested) is accepted only if key %s last: the bound is inclusive (the newest stored message itself is a valid answer)' % upper
+        ctx.check(why is None, RID, cls + '::find_nearest_highest_seqnum#scan', fh.loc, 'lower_bound(requested), accepted only when key <= last', why)
+    else:
+        raise AnalysisBroken(cls + '::find_nearest_highest_seqnum: neither the probing loop nor the lower_bound idiom recognised')
+    ctx.check(any(q.return_value(r) == 0 for r in rets), RID, cls + '::find_nearest_highest_seqnum#miss0', fh.loc,
+              'returns 0 when nothing in range is stored')
+
+
 def run(ctx):
     prog = Program(UNITS)
     ctx.units.update(UNITS)
@@ -148,27 +198,7 @@ def run(ctx):
                        any(x.is_call and x.callee and x.callee.get('n') == 'rbegin' for x in e_.walk()) and
                        any(x.k == 'MemberExpr' and x.decl.get('n') == 'first' for x in e_.walk()))
         ctx.check(okl, 'R26.2', cls + '::get_last_seqnum#greatest', gl.loc, 'last sequence number = greatest key (rbegin()->first), 0 when empty')
-        fh = prog.fn1(cls + '::find_nearest_highest_seqnum')
-        ctx.saw(fh)
-        loops = [n for n in fh.all_nodes() if n.k == 'ForStmt']
-        okn = False
-        if len(loops) == 1:
-            lp = loops[0]
-            init, cond, inc = lp.child('init'), lp.child('cond'), lp.child('inc')
-            if init is not None and init.k == 'DeclStmt' and cond is not None and inc is not None:
-                lv = init.r['decls'][0][0]
-                iv = fh.node(init.r['decls'][0][1])
-                c = cond.strip(casts=True)
-                i2 = inc.strip(casts=True)
-                okn = (q.refers_to_decl(iv, fh.param_ids[0]) and c.k == 'BinaryOperator' and c.op == '<=' and q.refers_to_decl(c.children[0], lv)
-                       and q.refers_to_decl(c.children[1], fh.param_ids[1]) and i2.k == 'UnaryOperator' and i2.op == '++' and q.refers_to_decl(i2.children[0], lv))
-                fnd = [x for x in lp.child('body').walk() if x.is_call and x.callee and x.callee.get('n') == 'find']
-                okn = okn and len(fnd) == 1 and q.refers_to_decl(fnd[0].args[0], lv)
-        ctx.check(okn, 'R26.2', cls + '::find_nearest_highest_seqnum#scan', fh.loc,
-                  'ascending scan from `requested` to `last` inclusive, probing each number')
-        rets = [n for (v, kind, n) in fh.cfg.exits() if kind == 'return']
-        ctx.check(any(q.return_value(r) == 0 for r in rets) and len(rets) == 2, 'R26.2', cls + '::find_nearest_highest_seqnum#miss0', fh.loc,
-                  'returns 0 when nothing in range is stored')
+        nearest_rule(ctx, prog, cls, 'R26.2')
         # single-record get
         sg = prog.fn1(cls + '::get', sig='(const unsigned int, FIX8::f8String &)')
         ctx.saw(sg)
